@@ -29,23 +29,32 @@ struct NodeSet {
 
 fn s(v: &str) -> Arc<String> { Arc::new(v.to_owned()) }
 
-fn new_set(index: Addr<RaftIndexManager>) -> NodeSet {
-    NodeSet {
-        h: RaftDataHandler {
-            config: ConfigActor::new().start(),
-            table: TableManager::new().start(),
-            namespace: NamespaceActor::new(1).start(),
-            sequence_db: SequenceDbManager::new().start(),
-            mcp_manager: McpManager::new().start(),
-            naming_actor: NamingActor::new().start(),
-            direct_cache_manager: DirectCacheManager::new().start(),
-        },
-        index,
-    }
+/// the component actors of one node, wired by the REAL bean factory exactly as src/starter.rs wires them (config and naming
+/// know the namespace actor, the table manager knows the cache, ...); beans that a single-process run does not have (raft
+/// handle, connection manager, cluster senders) stay None, as every `inject` allows
+async fn new_set(index: Addr<RaftIndexManager>) -> NodeSet {
+    use bean_factory::{BeanDefinition, BeanFactory};
+    let factory = BeanFactory::new();
+    let config = ConfigActor::new().start();
+    factory.register(BeanDefinition::actor_with_inject_from_obj::<ConfigActor>(config.clone()));
+    let naming_actor = NamingActor::new().start();
+    factory.register(BeanDefinition::actor_with_inject_from_obj(naming_actor.clone()));
+    let namespace = NamespaceActor::new(1).start();
+    factory.register(BeanDefinition::actor_with_inject_from_obj(namespace.clone()));
+    let table = TableManager::new().start();
+    factory.register(BeanDefinition::actor_with_inject_from_obj(table.clone()));
+    let sequence_db = SequenceDbManager::new().start();
+    factory.register(BeanDefinition::actor_from_obj(sequence_db.clone()));
+    let mcp_manager = McpManager::new().start();
+    factory.register(BeanDefinition::actor_with_inject_from_obj(mcp_manager.clone()));
+    let direct_cache_manager = DirectCacheManager::new().start();
+    factory.register(BeanDefinition::actor_with_inject_from_obj(direct_cache_manager.clone()));
+    let _wired = factory.init().await;
+    NodeSet { h: RaftDataHandler { config, table, namespace, sequence_db, mcp_manager, naming_actor, direct_cache_manager }, index }
 }
 
 const K1: &str = "app.yaml\x02DEFAULT_GROUP\x02";
-const K2: &str = "db.properties\x02g2\x02tenant-b";
+const K2: &str = "db.properties\x02g2\x02ns1";
 
 fn full_value_bytes() -> Vec<u8> {
     let d = ConfigValueDO {
@@ -194,9 +203,9 @@ fn vx_bounded_c07_paths() {
         }
         let mut checked = 0u64;
         for seq in seqs.iter() {
-            let l = new_set(index[0].clone());
-            let f = new_set(index[1].clone());
-            let r = new_set(index[2].clone());
+            let l = new_set(index[0].clone()).await;
+            let f = new_set(index[1].clone()).await;
+            let r = new_set(index[2].clone()).await;
             for &i in seq.iter() {
                 let _ = l.h.apply_log_to_state_machine(request(i), &l.index).await;
                 let _ = f.h.do_send_log(request(i), &f.index);
@@ -218,9 +227,9 @@ fn vx_bounded_c07_paths() {
             }
         }
         // the index-manager variants, once
-        let l = new_set(index[0].clone());
-        let f = new_set(index[1].clone());
-        let r = new_set(index[2].clone());
+        let l = new_set(index[0].clone()).await;
+        let f = new_set(index[1].clone()).await;
+        let r = new_set(index[2].clone()).await;
         for i in 0..2 {
             let _ = l.h.apply_log_to_state_machine(extra_request(i), &l.index).await;
             let _ = f.h.do_send_log(extra_request(i), &f.index);
@@ -300,8 +309,8 @@ fn vx_bounded_c01_restart() {
         let mut cache_only = 0u64;
         let mut tableseq_example = String::new();
         for (seq, cut) in runs.iter() {
-            let a = new_set(index[0].clone());
-            let b = new_set(index[1].clone());
+            let a = new_set(index[0].clone()).await;
+            let b = new_set(index[1].clone()).await;
             for &i in seq[..*cut].iter() { let _ = a.h.apply_log_to_state_machine(request(i), &a.index).await; }
             match snapshot_and_restore(&a, &b, &snap).await {
                 Ok(n) => records += n,
